@@ -16,11 +16,13 @@ E4 = "exhaustive finite-product enumeration vs reference model"
 CHECKS = {
     "C01": (
         E2 + " (R2 validator)",
-        "Every builder-call prefix of 8 scenario families (dataflow with nesting/Ext wires/order edges/partially used multi-output ops, "
+        "Every builder-call prefix of 21 scenario families (dataflow with nesting/Ext wires/order edges/partially used multi-output ops, "
         "unit rows, conditionals+if/else, tail loops, CFGs with Dom wires and back edges, modules with calls / function values / "
         "polymorphic and row-polymorphic callees) up to a free-call bound is executed on fresh real builders, completed by a "
         "deterministic default continuation and the serialized HUGR is judged by an independent transcription of the reference "
-        "validator's rules. Well-formedness of a program is decided by the harness' own typing context, never by the code under test.",
+        "validator's rules. Well-formedness of a program is decided by the harness' own typing context, never by the code under test. "
+        "Plus the size ladders (12 regular HUGR families x every size n in a contiguous range x 2 hosts) and load(v) for every copyable "
+        "value of the value grammar (built from lists and from one-shot iterators).",
         "Trusted: mc/ref/validate.py + hugrjson.py (R2, transcribed from hugr-core validate.rs / ops/validate.rs / ops.rs / spec), the "
         "harness typing context in mc/drivers/bpm.py. Bounded: call depth, nesting, row length, op alphabet (bundled std extensions).",
         "DESIGN.md section 4 (C01), section 2 (E2), Appendix A",
@@ -29,22 +31,25 @@ CHECKS = {
         E2 + " composed with store-mutation histories; differential round-trip oracle",
         "Every complete builder program of a reduced plan x every store-mutation history up to depth 1 (thorough 2) - delete leaf, add "
         "attribute-rich nodes, order link, delete link, insert fragment, JSON metadata values, index reuse - is serialized, loaded and "
-        "re-serialized; documents are compared as JSON values and the observable structure through a hierarchy-only numbering.",
+        "re-serialized; documents are compared as JSON values (type-strict: true/1/1.0 differ) and the observable structure through a "
+        "hierarchy-only numbering. Plus every size-ladder HUGR as built and after every single store mutation.",
         "Trusted: comparison code in mc/checks/c02.py; set-like arrays (runtime_reqs, extension sets) compared as sets.",
         "DESIGN.md section 4 (C02)",
     ),
     "C03": (
         E2 + " composed with store-mutation histories; published JSON schema + R2 port layout",
         "Same state space as C02; every emitted HUGR/package/extension document is validated against the published strict schema, R2's "
-        "index rules, and the image of Hugr.links() under R2's port layout (static port after value inputs, order port after those).",
+        "index rules, and the image of Hugr.links() under R2's port layout (static port after value inputs, order port after those). "
+        "Plus every size-ladder HUGR as built and after every single store mutation.",
         "Trusted: jsonschema + specification/schema/hugr_schema_strict_live.json; mc/ref/hugrjson.py port layout.",
         "DESIGN.md section 4 (C03)",
     ),
     "C04": (
         E1 + " (R1 port multigraph)",
         "All histories of add_node/add_const/add_link/add_order_link/delete_link/delete_node/insert_hugr over <=3 (4) live nodes, <=3 links, "
-        "ports {0,1,order}, breadth-first to depth 5 with canonical-state deduplication; after every event every public query is compared "
-        "with a list-based port-multigraph model.",
+        "ports {0,1,order} incl. links between an order port and a value port, inserted fragments incl. one with a reused index, "
+        "breadth-first to depth 5 with canonical-state deduplication; after every event every public query is compared with a list-based "
+        "port-multigraph model.",
         "Trusted: mc/ref/portgraph.py, mc/drivers/store.py. Bounded by node/link caps and depth; listing order within a port not compared.",
         "DESIGN.md section 4 (C04), section 2 (E1)",
     ),
@@ -52,7 +57,8 @@ CHECKS = {
         E3 + " + reference wire encoders + foreign documents",
         "Every term of bounded grammars of types, params, args, values and all 21 op kinds (optional attributes set) is encoded, decoded "
         "and re-encoded; compared exactly, against an independent reference encoder of the wire format, on derived facts (R3/R5) and "
-        "attribute-wise; sugar forms vs general forms; foreign documents (null-offset order edges, metadata, other encoder) through load+save.",
+        "attribute-wise; sugar forms vs general forms; foreign documents (null-offset order edges, metadata, other encoder) through load+save, "
+        "incl. every size-ladder document with its edges mapped through the reference port layout.",
         "Trusted: reference encoders in mc/drivers/terms.py / opterms.py (from the published schema), R3 table.",
         "DESIGN.md section 4 (C05), section 2 (E3)",
     ),
@@ -80,23 +86,23 @@ CHECKS = {
     ),
     "C16": (
         E4 + " (range(n) semantics) + builder-handle census + add/delete histories",
-        "Every output count n<=6 (10) x every int, slice (start/stop in [-n-2,n+2], steps) and 2-tuple; handles without count; equality/hash "
-        "over handle variants; every builder call form over a row alphabet vs R3 output counts; all add_node/delete_node histories to depth 4 (5).",
+        "Every output count n<=11 (14) x every int, slice (start/stop in [-n-2,n+2], steps) and 2-tuple; handles without count; equality/hash "
+        "over handle variants; every builder call form over a row alphabet vs R3 output counts; all add_node/delete_node histories to depth 4 (6).",
         "Trusted: Python's range(n) slicing; R3 output counts.",
         "DESIGN.md section 4 (C16)",
     ),
     "C18": (
         E1 + " to fixpoint (set-of-pairs model)",
-        "All reachable states of the real BiMap over a 4-letter (thorough: 5-letter) key/value alphabet "
+        "All reachable states of the real BiMap over a 4-letter (thorough: 6-letter, 13 327 states) key/value alphabet "
         "with falsy members are enumerated to a fixpoint; from every state every operation with every argument is "
         "executed on the implementation and compared, query by query, with a set-of-pairs model; the constructor "
         "is run on every mapping over the alphabet.",
-        "Trusted: the 30-line reference model in mc/checks/c18.py; alphabet of 4-5 hashable keys incl. 0, '', ().",
+        "Trusted: the 30-line reference model in mc/checks/c18.py; alphabet of 4-6 hashable keys incl. 0, '', ().",
         "DESIGN.md section 4 (C18), section 2 (E1)",
     ),
     "C19": (
         E4 + " (R7 write-replay model)",
-        "Every shot of <=3 (4) entries over 5 tags x 11 values (ints, bools, lists, non-bits) and every result of <=2 (3) shots over 8 "
+        "Every shot of <=3 (4) entries over 8 tags (incl. index 10, non-ASCII) x 11 values (ints, bools, lists, non-bits) and every result of <=2 (3) shots over 10 "
         "reference shots x 4 strictness settings, compared with a write-replay model.",
         "Trusted: the R7 model in mc/checks/c19.py.",
         "DESIGN.md section 4 (C19)",
@@ -106,14 +112,15 @@ CHECKS = {
         "B ranges over every distinct store state of the C04 machine up to depth 3 (4) - multi-linked ports, order links, self loops, holes, "
         "reused indices - and builder fragments; A over 3 hosts x every node as parent. The returned mapping, ops, parents, child order, "
         "metadata, out-port counts, link multiset, host and B are compared; insert_nested/_cfg/_conditional/_tail_loop from root, nested, "
-        "function-body and holed receiving builders with wires.",
+        "function-body and holed receiving builders with wires; every B also through the default parent; every size-ladder HUGR as B.",
         "Trusted: dump()/comparison code in mc/checks/c08.py; B states come from the C04 machine.",
         "DESIGN.md section 4 (C08)",
     ),
     "C09": (
         E4 + " (R8 header layout)",
         "Packages over ordered selections of 3 modules (one non-ASCII, null-carrying fields) and 3 extensions x 3 formats x compression levels "
-        "x bytes/str; header decoder on all 65536 (format, flags) pairs, truncations 0..9 and all 2040 single-byte magic corruptions.",
+        "x bytes/str; header decoder on all 65536 (format, flags) pairs, truncations 0..9 and all 2040 single-byte magic corruptions; size "
+        "ladder of payloads straddling 2^8..2^17 (thorough 2^24) bytes, highly/poorly compressible, and packages of 9..130 (700) modules.",
         "Trusted: header layout from hugr-core/src/envelope/header.rs; zstd frame magic. MODULE formats need the native module: reported skipped.",
         "DESIGN.md section 4 (C09)",
     ),
@@ -127,24 +134,24 @@ CHECKS = {
     ),
     "C11": (
         E3 + " x registry family (reference resolution by membership)",
-        "92 type expressions with opaque leaves nested in sums, function types (also inside sums), polymorphic bodies, type args, sequences and "
-        "args of opaque types x 85 registries (each of 2 extensions absent or holding any subset of its definitions); loaded HUGRs with 1-3 "
+        "150 (thorough 850) type expressions with opaque leaves nested in sums, function types (also inside sums), polymorphic bodies, type args, sequences and "
+        "args of opaque types, signatures with several runtime requirements, all-empty general sums x 85 registries (each of 2 extensions absent or holding any subset of its definitions); loaded HUGRs with 1-3 "
         "opaque ops (owner/empty requirements, unknown extension, missing op); model export before/after; idempotence.",
         "Trusted: expected_shape() in mc/checks/c11.py. Opaque inputs carry the bound their definition computes.",
         "DESIGN.md section 4 (C11)",
     ),
     "C12": (
         E2 + " (R6 model-scope walker)",
-        "Every complete module-rooted builder program of 4 module scenarios (nested DFGs, order edges, metadata, constants, calls incl. recursion / "
+        "Every complete module-rooted builder program of 6 module scenarios (nested DFGs, order edges, metadata, constants, calls incl. recursion / "
         "polymorphic / row-polymorphic callees, function values, conditionals, loops, CFGs with merges and back edges): Hugr.to_model() is walked in "
         "parallel with the HUGR; region structure, listed ports, link-name partition vs connectivity, symbols, inlined constants, order hints, "
-        "metadata; model dataclass fields vs the getattr() calls of python.rs.",
+        "metadata (type-strict); model dataclass fields vs the getattr() calls of python.rs; plus every module-hosted size-ladder HUGR.",
         "Trusted: mc/checks/c12.py (R6, from hugr-core export.rs / import.rs); str()/bytes() of model objects need the native module.",
         "DESIGN.md section 4 (C12)",
     ),
     "C13": (
         E2 + " with exhaustive single-fault injection at every reachable state",
-        "From every builder-program prefix of 8 scenarios, every applicable single inconsistent call of an 11-kind fault menu is executed on a "
+        "From every builder-program prefix of 12 scenarios, every applicable single inconsistent call of a fault menu of 9 families (30 kinds) is executed on a "
         "fresh replay of the state and must raise the documented error; plus every (width, untracked set, index, method) lookup of the tracked builder.",
         "Trusted: fault menu + expected-exception table in mc/checks/c13.py; fail-stop only.",
         "DESIGN.md section 4 (C13)",
@@ -153,7 +160,7 @@ CHECKS = {
         E1 + " (lock-step twin builder)",
         "All call sequences of the tracked builder (track/untrack/add/extend with mixed int and wire arguments, same index twice, freed and "
         "out-of-range indices, metadata, indexed/tracked outputs) to depth 4 (5) for both track_inputs settings, in lock-step with a plain Dfg driven "
-        "with explicit wires through a reference list[Wire|None]; tracked list and both HUGRs compared after every call.",
+        "with explicit wires through a reference list[Wire|None]; tracked list and both HUGRs compared after every call, serialized documents at completion.",
         "Trusted: the reference list and twin in mc/checks/c15.py.",
         "DESIGN.md section 4 (C15)",
     ),
@@ -161,7 +168,8 @@ CHECKS = {
         "exhaustive closure of the schema definition graphs (published vs regenerated), compared node by node",
         "The four schema files are regenerated from the models by the repository's own generator (its real strict/lax/strict/lax sequence in one "
         "subprocess) and one configuration per fresh process; every definition reachable through $ref from the roots of published and regenerated "
-        "schemas is compared; version strings of the models vs the file names.",
+        "schemas is compared; version strings of the models vs the file names; thorough: additionally every history of 2..4 strict/lax rebuilds "
+        "of the two root models in one process.",
         "Trusted: pydantic's schema generator as the definition of 'what the models define'; `additionalProperties: true` treated as void.",
         "DESIGN.md section 4 (C17)",
     ),
@@ -169,7 +177,8 @@ CHECKS = {
         E2 + " monitor (R9 DOT reader) x configuration product",
         "Every complete builder program of the plan (thorough: also after every single store mutation) x 7 render configurations: the DOT source is "
         "parsed and node statements, port cells, cluster nesting, edge statements and value labels are compared with the HUGR's public queries; "
-        "HUGR unchanged; outputs equal across configurations modulo colours and extension prefix.",
+        "HUGR unchanged; outputs equal across configurations modulo colours and extension prefix; plus size ladders (nodes with n ports, n links on "
+        "a port, n chained siblings, and the shared ladder families).",
         "Trusted: mc/ref/dot.py; the `dot` binary is never invoked.",
         "DESIGN.md section 4 (C20)",
     ),
